@@ -1,4 +1,5 @@
 import DirectVerif.Lemmas.C04Loops
+import DirectVerif.Lemmas.C04Interior
 /-!
 # C04 — every mask generator returns a boolean mask of the documented geometry
 
@@ -243,6 +244,29 @@ theorem rows_identical (g : Gen) (hg : g.family ≠ .disc) (m : Mode) (shape : L
   rw [hpat] at h1 h2
   rw [h1, h2]
 
+/-- what a well-formed assembly table (the decidable predicate discharged on the table extracted from the
+source, `Bridge.C04.assembly_table_ok`) means: for every generator the translated frame expressions
+are, cell by cell, the model's `framePattern` of the frame's own interior and ACS -/
+theorem assembly_table_sound (tbl : List (String × BExp × BExp)) (h : assemblyTableOk tbl = true) (g : Gen)
+    (hg : g ∈ Gen.all) : ∃ m a, tbl.lookup g.name = some (m, a) ∧
+      ∀ acs draw other cond : Bool,
+        m.eval acs draw other cond = (framePattern false [draw] [acs]).getD 0 false ∧
+        a.eval acs draw other cond = (framePattern true [draw] [acs]).getD 0 false := by
+  unfold assemblyTableOk at h
+  have hg' := List.all_eq_true.mp h g hg
+  cases hl : tbl.lookup g.name with
+  | none => simp [hl] at hg'
+  | some ma =>
+    obtain ⟨m, a⟩ := ma
+    refine ⟨m, a, rfl, ?_⟩
+    simp only [hl, allBool, Bool.and_eq_true, beq_iff_eq] at hg'
+    intro acs draw other cond
+    have : (framePattern false [draw] [acs]).getD 0 false = (draw || acs) ∧
+        (framePattern true [draw] [acs]).getD 0 false = acs := by
+      simp [framePattern, orL]
+    rw [this.1, this.2]
+    cases acs <;> cases draw <;> cases other <;> cases cond <;> simp_all
+
 /-! ## rank checks -/
 
 theorem call_rejects_low_rank (g : Gen) (m : Mode) (shape : List Nat) (spec : AcsSpec) (racs : Bool)
@@ -396,6 +420,78 @@ theorem circus_disc_returns_iff (rows cols : Nat) (mask : List Bool) (thr : List
     cases hr : circusDisc rows cols mask thr with
     | some r => rfl
     | none => exact absurd hc (h.mp hr t ht)
+
+/-! ## interiors that are pure integer logic: k-t grid helpers, CIRCUS ordering, `_poisson` active lists -/
+
+/-- `linear_indices_to_2d_coordinates` inverts the trajectory index on the grid (1-based `x ∈ [1, row]`) -/
+theorem kt_linear2d_grid (n x y : Int) (hn : 0 < n) (hx1 : 1 ≤ x) (hxn : x ≤ n) :
+    linear2d ((y - 1) * n + x) n = (x, y) := linear2d_grid n x y hn hx1 hxn
+
+/-- `resolve_duplicates_on_kt_grid` never changes the number of k-t samples (every duplicate is moved, none
+is dropped or added) -/
+theorem kt_resolve_keeps_count (phase time : List Int) (ny nt : Nat) (p t : List Int)
+    (h : resolveDuplicates phase time ny nt = some (p, t)) :
+    p.length = min phase.length time.length ∧ t.length = min phase.length time.length :=
+  resolveDuplicates_length phase time ny nt p t h
+
+/-- a duplicate-free trajectory is returned as it is (as coordinates) -/
+theorem kt_resolve_identity_of_nodup (phase time : List Int) (ny nt : Nat)
+    (h : (List.zipWith (trajIndex ny nt) phase time).Nodup) :
+    resolveDuplicates phase time ny nt =
+      some (((List.zipWith (trajIndex ny nt) phase time).map fun v => (linear2d v ny).1 - halfUp ny),
+            ((List.zipWith (trajIndex ny nt) phase time).map fun v => (linear2d v ny).2 - halfUp nt)) :=
+  resolveDuplicates_of_nodup phase time ny nt h
+
+/-- **KtUniform**: for every width, frame count and every set `ind` of flat indices of the Toeplitz array the
+detour through `(ph, ti)`, `resolve_duplicates_on_kt_grid` and back yields `inds = ind` exactly: the pattern
+lies on the grid, nothing is `< 0`, and `inds <= 0` happens exactly for the legitimate sample `ind = 0`
+(column 0 of frame 0) — which the clamp `inds[inds <= 0] = 1` then misplaces. -/
+theorem kt_uniform_inds_eq_flat (n nt : Nat) (hn : 0 < n) (ind : List Int) (hnd : ind.Nodup) :
+    ∃ ph ti, resolveDuplicates (ind.map fun f => f % n - ((n / 2 : Nat) : Int))
+        (ind.map fun f => f / n - ((nt / 2 : Nat) : Int)) n nt = some (ph, ti) ∧ ktInds n nt ph ti = ind :=
+  ktUniform_inds_eq_flat n nt hn ind hnd
+
+/-- the clamp as coded: with phase offset 0 (N = 4, nt = 2, combs `[0, 2]` / `[0]`) the Toeplitz array samples
+column 0 in frame 0; the code drops it and sets column 0 of frame 1 instead -/
+theorem kt_uniform_clamp_misplaces_origin :
+    (ktUniformFlat false 4 2 [0, 2] [0]).map (ktUniformFrames 4 2) =
+      some [[true, false, true, false], [false, true, false, true]] ∧
+    (ktUniformFlat true 4 2 [0, 2] [0]).map (ktUniformFrames 4 2) =
+      some [[false, false, true, false], [true, true, false, true]] := by decide
+
+/-- … and when that cell is already sampled the frame budget loses a sample (combs `[0, 2]` / `[0, 1]`) -/
+theorem kt_uniform_clamp_loses_sample :
+    ((ktUniformFlat false 4 2 [0, 2] [0, 1]).map fun f => f.count true) = some 5 ∧
+    ((ktUniformFlat true 4 2 [0, 2] [0, 1]).map fun f => f.count true) = some 4 := by decide
+
+/-- CIRCUS: the perimeter of nested square `sq` has `K = 4 (J − 1)` cells (`J = side − 2 sq`), all on the grid:
+every `indices_idx ∈ [0, K)` addresses a cell of the `max_dim × max_dim` array -/
+theorem circus_square_perimeter (side sq : Nat) (h : 2 * sq + 2 ≤ side) :
+    (squareOrdered side sq).length = 4 * (side - 2 * sq - 1) ∧
+    ∀ rc ∈ squareOrdered side sq, rc.1 < side ∧ rc.2 < side :=
+  ⟨length_squareOrdered side sq h, fun rc hm => squareOrdered_on_grid side sq h rc hm⟩
+
+/-- `_poisson.pyx` (known finding generator-crashes/VariableDensityPoisson/active-list-overrun): a candidate
+can be accepted into a cell that is already sampled — radius 1, cell (0,0) sampled, candidate (0.8, 0.8):
+distance² = 1.28 ≥ 1 from every sampled cell, yet `int(q) = (0,0)` … -/
+theorem poisson_accepts_occupied_cell :
+    poissonAccept 2 2 10 10 [true, false, false, false] 8 8 = true ∧
+    [true, false, false, false].getD (poissonCell 2 10 8 8) false = true := by decide
+
+/-- … so `num_actives` grows without a new cell being sampled and passes the capacity `nx·ny` of `pxs/pys`:
+four such acceptances on a 2 × 2 grid (the kernel then writes `pxs[4]`, out of bounds) -/
+theorem poisson_active_list_overrun_witness :
+    poissonOverrun 2 2 (poissonRun false 2 2 10 10 { mask := [false, false, false, false], actives := [(0, 0)] }
+      [(0, some (8, 8)), (0, some (8, 8)), (0, some (8, 8)), (0, some (8, 8))]) = true := by decide
+
+/-- with the suggested guard (refuse a candidate whose cell is sampled) `num_actives ≤ #sampled + 1 ≤ nx·ny + 1`
+for every run: the lists need one more slot than they have, never more (`_partial`: the initial point is not
+marked in the mask, so capacity `nx·ny` is still one short in the worst case) -/
+theorem poisson_guard_bound_partial (nx ny : Nat) (den r : Int) (hden : 0 < den)
+    (evs : List (Nat × Option (Int × Int))) (p0 : Nat × Nat) :
+    (poissonRun true nx ny den r { mask := List.replicate (nx * ny) false, actives := [p0] } evs).actives.length
+      ≤ nx * ny + 1 :=
+  poissonRun_guard_invariant nx ny den r hden evs _ (by simp) (by simp)
 
 /-! ## non-vacuity / regression examples -/
 
